@@ -741,6 +741,8 @@ class Engine(object):
             return v.z != 0
         if ty in (STR, BYTES):
             return z3.Length(v.z) > 0
+        if ty == PATH:
+            return v.z != z3.Const('u_path_empty', zsorts(PATH)[0])      # the empty string as a path
         if ty == NONE:
             return z3.BoolVal(False)
         if isinstance(ty, TRef):
